@@ -43,6 +43,8 @@ PktV9_D  == EncV9Hdr(1, H9) \o EncDataSet(256, <<RecA(70), RecA(80)>>, <<>>)
 PktV9_Short == EncV9Hdr(2, H9) \o <<0, 0, 0, 2>> \o EncDataSet(256, <<RecA(70)>>, <<>>)   \* a flowset whose length field is < 4
 PktV9_ShortLast == EncV9Hdr(1, H9) \o <<0, 0, 0, 1>>                                       \* ... as the last flowset
 PktIx_ShortSet == EncIpfixMsg(HX, <<EncIpfixTmplSet(<<T9(257, FA)>>, <<>>), <<0, 2, 0, 3>>>>)   \* a set whose length field is < 4
+PktV9_CountBig == EncV9Hdr(65535, H9) \o EncV9TmplSet(<<T9(258, FA)>>, <<>>)                  \* count far above what is present
+PktV9_CountSmall == EncV9Hdr(1, H9) \o EncV9TmplSet(<<T9(259, FA)>>, <<>>) \o EncDataSet(259, <<RecA(30)>>, <<>>)   \* fewer than present
 PktIx_TD == EncIpfixMsg(HX, <<EncIpfixTmplSet(<<T9(256, FA)>>, <<>>), EncDataSet(256, <<RecA(90)>>, <<>>)>>)
 PktIx_D  == EncIpfixMsg(HX, <<EncDataSet(256, <<RecA(110), RecA(120)>>, <<>>)>>)
 PktIx_H  == EncIpfixMsg(HX, <<>>)
@@ -51,7 +53,7 @@ Blob     == <<0, 1, 2, 3>>                                                   \* 
 Tail1    == <<0>>
 
 Alphabet == << PktV5_0, PktV5_1, PktV7_1, PktV9_T, PktV9_TD, PktV9_D, PktV9_Short, PktIx_TD, PktIx_D, PktIx_H, PktIx_L, Blob, Tail1,
-              PktV9_ShortLast, PktIx_ShortSet >>
+              PktV9_ShortLast, PktIx_ShortSet, PktV9_CountBig, PktV9_CountSmall >>
 NA == Len(Alphabet)
 
 Chains(n) == UNION {[1..k -> 1..NA] : k \in 1..n}
